@@ -440,7 +440,13 @@ pub struct Cited {
 /// the messages of the CLI that cite a source line
 pub fn cited_lines(stdout: &str) -> Vec<Cited> {
     let mut v = Vec::new();
-    let num = |s: &str| -> usize { s.trim_start().chars().take_while(|c| c.is_ascii_digit()).collect::<String>().parse().unwrap_or(0) };
+    // the number a message cites; a word in front of it ("... at line 7") is skipped
+    let num = |s: &str| -> usize {
+        let s = s.trim_start();
+        let skip = s.chars().take_while(|c| c.is_ascii_alphabetic() || *c == ' ').count();
+        let s = if skip <= 12 { &s[skip..] } else { s };
+        s.chars().take_while(|c| c.is_ascii_digit()).collect::<String>().parse().unwrap_or(0)
+    };
     for l in stdout.lines() {
         // program output may precede a message on the same line: search inside the line
         let find = |pat: &str| l.find(pat).map(|k| &l[k + pat.len()..]);
